@@ -440,6 +440,30 @@ func genC18(c *Ctx) {
 		tok := encPos(p)
 		out := c.Emit("eval " + tok)
 		c.Count(absClass(out))
+		// MinimaxAI.Evaluate on the run-long engine of this size; and the same board under other rules of the game (a side
+		// out of pieces -> finished; the tie-break flag flipped), before or after it, on the same engine
+		if inDomain {
+			twin := p.VerifRaw()
+			switch c.R.Intn(3) {
+			case 0:
+				twin.WS, twin.WC = 0, 0
+			case 1:
+				twin.BS, twin.BC = 0, 0
+			default:
+				twin.BWT = !twin.BWT
+			}
+			ttok := encPos(tak.VerifFromRaw(twin))
+			if c.R.Chance(1, 2) {
+				c.Emit("evalmm " + tok)
+				c.Emit("evalmm " + ttok)
+			} else {
+				c.Emit("evalmm " + ttok)
+				c.Emit("evalmm " + tok)
+			}
+			c.Count("evalmm.twin")
+		} else {
+			c.Emit("evalmm " + tok)
+		}
 		if over, _ := p.GameOver(); !over && inDomain {
 			c.Count("undecided, well-formed: " + absClass(out))
 		}
@@ -864,6 +888,11 @@ func genC19(c *Ctx) {
 			case x < 84:
 				p = smallBoard(c.R, 3+c.R.Intn(3))
 				src = "src.smallboard"
+			case x < 92:
+				// many separate road groups per colour (more than `size`, more than 2*size in all): the detector reads
+				// them through Analysis()
+				p = groupsBoard(c.R, size)
+				src = "src.groupsboard"
 			default:
 				p = randomPosition(c.R)
 				src = "src.random"
